@@ -9,6 +9,15 @@ Findings on the unchanged tree (FAMILIES below are the fallback keys, matched on
        orders is false (no small fix: packing order)   key qexpr-object-equality-named-order-on-stored-encoding
   new  < <= > >= with object operands on stored encodings compare bytes, not list members
        (no small fix)                                              key qexpr-object-order-on-stored-encoding
+  C30  (thorough) 0 / d is 0 for every d, also where n / d with n = 0 fails with can't convert to number
+       (d = true, "a", a date, an object): foldMul's zero shortcut drops the divisor; the language's
+       compiled `0 / d` is folded the same way, so query and language agree with each other and
+       differ from the unfolded division only - the recorded folder defect F15, not a new one
+                                          key qexpr-fold-absorbing-shortcut (= C30 fold-absorbing-shortcut)
+  C30  (thorough, seed 4) 1.5 / d is .9999999999999999 for d = 1.5: the recorded reciprocal finding; the
+       shape test now uses the language's own decimal arithmetic (dn_div / dn_mul below) instead of
+       correctly rounded 16-digit decimals, which called (1 / 1.5) * 1.5 equal to 1
+                                   key qexpr-const-div-field-reciprocal (= C30 fold-const-div-var-reciprocal)
   new  t extend z = 1 / a fails the same way (Unary.Eval has no case for the folder's 1 / x node); fix: commit
   new  (thorough) t extend xd = d where xd or true returns every row although d is not a boolean
        (replaceExpr drops the operands before a short-circuit constant); fix: commit      key qexpr-transform-shortcut
@@ -46,7 +55,7 @@ ALIAS = {
 }
 
 FAMILIES = {
-    "qexpr-fold-absorbing-shortcut": "field * 0, field & 0, field and false, field or true are folded to the constant although the field's value is not valid for the operator (C30 fold-absorbing-shortcut)",
+    "qexpr-fold-absorbing-shortcut": "field * 0, 0 / field, field & 0, field and false, field or true are folded to the constant although the field's value is not valid for the operator (C30 fold-absorbing-shortcut)",
     "qexpr-fold-bits-32bit-allones": "& / | with a constant that does not fit 32 bits unsigned (C30 fold-bits-32bit-allones)",
     "qexpr-object-order-on-stored-encoding": "order comparison (< <= > >=) with an object operand: stored encodings are compared bytewise, the language compares list members (named members ignored)",
     "qexpr-object-equality-named-order-on-stored-encoding": "is / isnt / in on stored encodings of objects with several named members depends on their insertion order",
@@ -54,6 +63,43 @@ FAMILIES = {
     "qexpr-or-with-empty-alternative-selects-nothing": "where x < \"\" or <other condition on x> selects nothing",
     "qexpr-transform-shortcut": "where over extend/rename: <operand> or true / <operand> and false is replaced by the constant although the operand is still evaluated (and type checked) in the plain where",
 }
+
+
+# the language's 16-digit decimal arithmetic (util/dnum New / Div / Mul: the quotient is
+# truncated to 17 digits and rounded half up digit by digit, the product is built from 9 + 7
+# digit halves without the low x low term), as (sign, coefficient of 16 digits, exponent);
+# cross-checked against the real package on 4000 operand pairs.  Used only to tell whether an
+# expression has the shape of the recorded reciprocal finding.
+def dn_new(sign, coef, exp):
+    if sign == 0 or coef == 0:
+        return (0, 0, 0)
+    atmax = False
+    while coef > 10 ** 16 - 1:
+        coef = (coef + 5) // 10
+        exp += 1
+        atmax = True
+    while not atmax and coef * 10 <= 10 ** 16 - 1:
+        coef *= 10
+        exp -= 1
+    return (sign, coef, exp)
+
+
+def dn_from(d):
+    s, digits, e = d.as_tuple()
+    return dn_new(-1 if s else 1, int("".join(map(str, digits))), e + 16)
+
+
+def dn_div(x, y):
+    return dn_new(x[0] * y[0], x[1] * 10 ** 16 // y[1], x[2] - y[2])
+
+
+def dn_mul(x, y):
+    e7 = 10 ** 7
+    xhi, xlo, yhi, ylo = x[1] // e7, x[1] % e7, y[1] // e7, y[1] % e7
+    c = xhi * yhi
+    if xlo or ylo:
+        c += (xlo * yhi + ylo * xhi) // e7
+    return dn_new(x[0] * y[0], c, x[2] + y[2] - 2)
 
 
 def classify(ev, rows):
@@ -89,14 +135,24 @@ def classify(ev, rows):
             # equal objects whose named members are stored in different orders
             if op in ("is", "isnt", "in") and any(named_order_differs(vals[0], v) for v in vals[1:]):
                 fams.add("qexpr-object-equality-named-order-on-stored-encoding")
-            # constant / field, where (1 / field) * constant is rounded differently
+            # constant / field, where (1 / field) * constant is rounded differently from
+            # constant / field (in the language's own decimal arithmetic, see dn_div / dn_mul:
+            # 1.5 / 1.5 = (1 / 1.5) * 1.5 = .6666666666666666 * 1.5 = .9999999999999999)
             if op == "div" and is_const(x["a"][0]) and not is_const(x["a"][1]):
                 n, d = num(vals[0]), num(vals[1])
-                if n is not None and d is not None and n.is_finite() and d.is_finite() and d != 0:
-                    with localcontext() as c:
-                        c.prec = 16
-                        if (Decimal(1) / d) * n != n / d:
-                            fams.add("qexpr-const-div-field-reciprocal")
+                if n is not None and d is not None and n.is_finite() and d.is_finite() and d != 0 and n != 0:
+                    N, D = dn_from(n), dn_from(d)
+                    if dn_mul(dn_div(dn_from(Decimal(1)), D), N) != dn_div(N, D):
+                        fams.add("qexpr-const-div-field-reciprocal")
+            # 0 / field: a division is a member (1 / field) of the multiplication chain, so the
+            # folder's zero shortcut (foldMul) replaces the whole quotient by 0 and the divisor is
+            # never converted to a number - the same shortcut as field * 0 (C30 classifies 0 / x
+            # the same way).  Only where the divisor's value is not valid for the division:
+            # 0 / 0, 0 / false, 0 / "" are 0 in the language as well.
+            if op == "div" and is_const(x["a"][0]) and not is_const(x["a"][1]) and num(vals[0]) == 0:
+                o = vals[1]
+                if num(o) is None and not (o["t"] == "bool" and not o["b"]) and o != {"t": "str", "c": []}:
+                    fams.add("qexpr-fold-absorbing-shortcut")
             # the folder's absorbing shortcuts (C30 fold-absorbing-shortcut) seen through a query
             # expression: field * 0, field & 0, field | 0xffffffff, field and false, field or true
             # where the field's value is not valid for the operator
